@@ -134,10 +134,13 @@ func (e *Emitter) analyzeResources() {
 
 		// Push constants / immediate data may not have explicit bindings.
 		// Create a synthetic binding for them so they can be accessed as CBV.
-		if gv.Binding == nil {
+		// The synthetic binding stays local: the global-variable arena is shared
+		// with the module the caller passed in and must not be written.
+		binding := gv.Binding
+		if binding == nil {
 			if gv.Space == ir.SpacePushConstant || gv.Space == ir.SpaceImmediate {
 				// Assign to group=0, binding=nextCBV to avoid conflict.
-				gv.Binding = &ir.ResourceBinding{
+				binding = &ir.ResourceBinding{
 					Group:   0,
 					Binding: uint32(rangeCounters[resourceClassCBV]), //nolint:gosec // range counter is small
 				}
@@ -173,8 +176,8 @@ func (e *Emitter) analyzeResources() {
 		// and bitcode resource metadata MUST agree on the size or the
 		// validator trips 'ResourceBindInfo mismatch'; unbounded stays
 		// as the fallback when no override is present.
-		grp := gv.Binding.Group
-		bnd := gv.Binding.Binding
+		grp := binding.Group
+		bnd := binding.Binding
 		if e.opts.BindingMap != nil {
 			if tgt, ok := e.opts.BindingMap[BindingLocation{Group: grp, Binding: bnd}]; ok {
 				grp = tgt.Space
